@@ -10,14 +10,17 @@ Init == i = 1
 (*   [kind |-> "window", over, ord, frames, st, ids]   ids = the word / number tokens after the function's own brackets     *)
 (*   [kind |-> "group", hist, st, ids]       ids = the tokens of the GROUP BY clause to the end of the statement            *)
 (*   [kind |-> "path", route, names, alias, ids, eq]   ids = the identifiers of the FROM clause, eq = equal to + hashes like the kw_obj table *)
-Ok(e) == IF e.kind = "path" THEN RouteApplies(e.route, Len(e.names)) /\ TablePath(e.route, e.names, e.alias) = [ids |-> e.ids, eq |-> e.eq]
+(*   [kind |-> "loadq", hist, ids]            ids = the word / string / identifier / comma tokens of the statement                    *)
+Ok(e) == IF e.kind = "loadq" THEN LoadOutcome(e.hist) = e.ids
+         ELSE IF e.kind = "path" THEN RouteApplies(e.route, Len(e.names)) /\ TablePath(e.route, e.names, e.alias) = [ids |-> e.ids, eq |-> e.eq]
          ELSE IF e.kind = "group" THEN GroupOutcome(e.hist) = [st |-> e.st, ids |-> e.ids]
          ELSE IF e.kind = "window" THEN WindowCall(e.over, e.ord, e.frames) = [st |-> e.st, ids |-> e.ids]
          ELSE IF e.kind = "agg" THEN IsAgg(e.tree) = e.obs
          ELSE IF e.kind = "paths" THEN PathsAgree(e.ids)
          ELSE IF e.kind = "custom" THEN CustomCall(e.parts[1], e.parts[2]) = [st |-> e.st, ids |-> e.ids]
          ELSE FoldCrit(e.parts) = [st |-> e.st, ids |-> e.ids]
-WantStr(e) == IF e.kind = "path" THEN ToJson(TablePath(e.route, e.names, e.alias))
+WantStr(e) == IF e.kind = "loadq" THEN ToJson(LoadOutcome(e.hist))
+              ELSE IF e.kind = "path" THEN ToJson(TablePath(e.route, e.names, e.alias))
               ELSE IF e.kind = "group" THEN ToJson(GroupOutcome(e.hist))
               ELSE IF e.kind = "window" THEN ToJson(WindowCall(e.over, e.ord, e.frames))
               ELSE IF e.kind = "agg" THEN IsAgg(e.tree) ELSE IF e.kind = "paths" THEN "one-text"
